@@ -49,10 +49,7 @@ def execValue (devnullOk : Bool) (forkRes waitRes : Res) : Int :=
   else match forkRes with
     | .ok _ =>
       match waitRes with
-      | .ok status =>
-        if status % 128 == 0 then
-          (if (status / 256) % 256 == 127 then -1 else (((status / 256) % 256 : Nat) : Int))
-        else ((128 + status % 128 : Nat) : Int)
+      | .ok status => execStatus status
       | _ => -1
     | _ => -1
 
@@ -72,13 +69,11 @@ theorem Own.execP_run (fdin : Option Handle) (orc : Nat → Call → Res) (i : N
     simp only [ret_bind, runO_call, execValue]
     cases orc i .fork <;> simp only [call_bind', ret_bind, runO_call, runO_ret] <;> try rfl
     cases orc (i + 1) .waitpid <;> simp only [call_bind', ret_bind, runO_call, runO_ret] <;> try rfl
-    split <;> simp
   | none =>
     simp only [call_bind', runO_call]
     cases orc i (.openPath (ofString "/dev/null")) <;> simp only [ret_bind, runO_call, runO_ret, execValue] <;> try rfl
     cases orc (i + 1) .fork <;> simp only [call_bind', ret_bind, runO_call, runO_ret] <;> try rfl
     cases orc (i + 1 + 1) .waitpid <;> simp only [call_bind', ret_bind, runO_call, runO_ret] <;> try rfl
-    split <;> simp [runO_call]
 
 theorem execP_value (fdin : Option Handle) (orc : Nat → Call → Res) :
     ∃ devnullOk forkRes waitRes, (runOracle orc (execP fdin) 0 []).1 = execValue devnullOk forkRes waitRes := by
